@@ -272,15 +272,76 @@ def run_exec(ops, timeout=3600):
     return [json.loads(l) for l in lines]
 
 
-def run_exec_parallel(ops, nproc=16, timeout=3600):
+def run_exec_robust(ops, per_op_timeout=600):
+    """As run_exec, for entry points that must neither abort nor hang: an op on which the process dies (abort,
+    stack overflow, allocation failure, a signal) or which prints nothing for per_op_timeout seconds gets the result
+    {"r": "abort" | "timeout", ...} and the remaining ops are run in a fresh process."""
+    import threading, selectors
+    out, i = [], 0
+    while i < len(ops):
+        chunk = ops[i:]
+        inp = "\n".join(json.dumps(o, separators=(",", ":")) for o in chunk) + "\n"
+        p = subprocess.Popen([_BIN[0], "exec"], stdin=subprocess.PIPE, stdout=subprocess.PIPE, stderr=subprocess.PIPE)
+
+        def feed():
+            try:
+                p.stdin.write(inp.encode())
+                p.stdin.close()
+            except Exception:
+                pass
+        th = threading.Thread(target=feed, daemon=True)
+        th.start()
+        err_buf = []
+        te = threading.Thread(target=lambda: err_buf.append(p.stderr.read()), daemon=True)
+        te.start()
+        sel = selectors.DefaultSelector()
+        sel.register(p.stdout, selectors.EVENT_READ)
+        buf, got, how = b"", [], None
+        last = time.time()
+        while len(got) < len(chunk):
+            ev = sel.select(timeout=5)
+            if ev:
+                d = os.read(p.stdout.fileno(), 1 << 16)
+                if not d:
+                    how = "abort"
+                    break
+                buf += d
+                while b"\n" in buf:
+                    line, buf = buf.split(b"\n", 1)
+                    if line.strip():
+                        got.append(json.loads(line))
+                        last = time.time()
+            elif time.time() - last > per_op_timeout:
+                how = "timeout"
+                break
+        sel.close()
+        if how == "timeout":
+            p.kill()
+        try:
+            rc = p.wait(timeout=30)
+        except Exception:
+            p.kill()
+            rc = p.wait()
+        te.join(timeout=5)
+        out += got
+        if len(got) == len(chunk):
+            break
+        stderr = (err_buf[0] if err_buf else b"").decode(errors="replace")[-400:]
+        out.append({"r": how or "abort", "rc": rc, "stderr": stderr})
+        i += len(got) + 1
+    return out
+
+
+def run_exec_parallel(ops, nproc=16, timeout=3600, robust=False):
     """As run_exec, the op list cut into nproc contiguous chunks run concurrently."""
+    one = (lambda c: run_exec_robust(c)) if robust else (lambda c: run_exec(c, timeout))
     if len(ops) < 64 or nproc <= 1:
-        return run_exec(ops, timeout)
+        return one(ops)
     import concurrent.futures as cf
     k = (len(ops) + nproc - 1) // nproc
     chunks = [ops[i:i + k] for i in range(0, len(ops), k)]
     with cf.ThreadPoolExecutor(max_workers=nproc) as ex:
-        res = list(ex.map(lambda c: run_exec(c, timeout), chunks))
+        res = list(ex.map(one, chunks))
     return [r for c in res for r in c]
 
 
